@@ -5,6 +5,7 @@ A scenario is the record the RaceDriver.tla model uses:
   {"sched": [{"tasks": [{"id", "clients", "reqs", "cp", "acp"}...], "cap": int}...], "workerOf": [w per client], "W": n}
 """
 import asyncio
+import collections
 import concurrent.futures
 import os
 import random
@@ -54,6 +55,44 @@ class StubPool:
 
     def shutdown(self, *a, **k):
         pass
+
+
+class PreemptDeque(collections.deque):
+    """The deque inside a Sampler's queue.Queue. Every access that happens while the queue's mutex is NOT held is a point at which
+    the other thread (the executor) may run: the harness is told (world.unlocked_access_hook). queue.Queue's own methods hold
+    the mutex, so code that sticks to them is never preempted here; code that reaches into `q.queue` directly is."""
+
+    _q = None
+    _world = None
+
+    def _maybe(self):
+        w = self._world
+        if w is not None and w.unlocked_access_hook is not None and self._q is not None and not self._q.mutex.locked():
+            w.unlocked_access_hook(self)
+
+    def __iter__(self):
+        self._maybe()
+        return super().__iter__()
+
+    def clear(self):
+        self._maybe()
+        return super().clear()
+
+    def popleft(self):
+        self._maybe()
+        return super().popleft()
+
+    def pop(self, *a):
+        self._maybe()
+        return super().pop(*a)
+
+    def copy(self):
+        self._maybe()
+        return super().copy()
+
+    def __getitem__(self, i):
+        self._maybe()
+        return super().__getitem__(i)
 
 
 class HandlerBlocked(BaseException):
@@ -359,6 +398,21 @@ class RaceWorld:
             return res
 
         self._patch(driver.ThroughputCalculator, "calculate", observed_calc)
+
+        # the sampler's queue is shared between the actor thread and the executor thread (see PreemptDeque)
+        self.unlocked_access_hook = None
+        orig_sampler_init = driver.Sampler.__init__
+
+        def sampler_init(self_, *a, **k):
+            orig_sampler_init(self_, *a, **k)
+            q = getattr(self_, "q", None)
+            if q is not None and isinstance(getattr(q, "queue", None), collections.deque) and not isinstance(q.queue, PreemptDeque):
+                dq = PreemptDeque(q.queue)
+                dq._q = q  # pylint: disable=protected-access
+                dq._world = world  # pylint: disable=protected-access
+                q.queue = dq
+
+        self._patch(driver.Sampler, "__init__", sampler_init)
 
         class SimWorker(driver.Worker):
             def __init__(self_):
